@@ -18,16 +18,16 @@ import (
 
 // Env is the per-execution environment shared by the drivers: recorder, mode, controller options, driver accounting.
 type Env struct {
-	R       *rec.Rec
-	Mode    string // "c" controlled, "f" free-running
-	Opts    sched.Options
-	Res     sched.Result
-	Infra   string
-	Confirm bool
-	St      *Stats
-	self    int64
-	done    atomic.Int32
-	total   atomic.Int32
+	R        *rec.Rec
+	Mode     string // "c" controlled, "f" free-running
+	Opts     sched.Options
+	Res      sched.Result
+	Infra    string
+	Confirm  bool
+	St       *Stats
+	self     int64
+	done     atomic.Int32
+	total    atomic.Int32
 	FreeIdle func() bool // optional (free mode): extra condition for "nothing more will happen" (e.g. pollers only)
 }
 
